@@ -1160,7 +1160,7 @@ pub fn meta_c17b() -> Meta {
         level: "exploration",
         rule: "protocol level: 4-segment file, timer grid (Ti,Ta,Tn,L) in {(10,3,4,3),(4,1,2,2),(20,5,2,5),(6,2,9,1),(3,1,5,3)} x handler for every timer/checksum condition in {unset, Cancel, Ignore, Suspend, Abandon} x 4 NAK procedures x scenarios {reverse link dark from each of its first 4 PDUs, forward link dark from each of its first 7 PDUs, each data segment lost together with all its retransmissions, one segment recovering while its neighbour never does (progress resets the count), a corrupted byte without CRC, every Finished lost} plus unacknowledged+closure variants (complete in thorough, every 3rd by seed in quick); mixed = seeded scenarios of the same kinds with a different handler per condition (NAK limit often ignored, so that a second, different fault follows in the same transaction). Oracle on virtual timestamps; a receiver inactivity limit that was reached must also have been declared under its own condition. distinct_nontrivial = distinct (config, event-order) signatures among runs in which at least one limit fault was timed.".into(),
         exhaustive: false,
-        assumptions: vec!["never-earlier is checked with 10 ms slack for the 1 ms/PDU pacing of the simulated link; never-later with an additional 50 ms per period".into(), "with an Ignore handler the implementation re-declares the same fault immediately (and spins until the hook's spin guard stops the task); only the first declaration of each condition is judged".into()],
+        assumptions: vec!["never-earlier is checked with 10 ms slack for the 1 ms/PDU pacing of the simulated link; never-later with an additional 50 ms per period".into(), "with an Ignore handler the implementation re-declares the same fault at every further expiry; only the first declaration of each condition is judged".into()],
         require: vec![("c17_timing_judged:sender:EOF".into(), 30), ("c17_timing_judged:receiver:Finished".into(), 30), ("c17_timing_judged:receiver:NAK".into(), 30), ("c17_timing_judged:receiver:Inactivity".into(), 30), ("c17_handler_judged:Abandon".into(), 20), ("c17_handler_judged:Suspend".into(), 20), ("c17_handler_judged:Ignore".into(), 20), ("c17_handler_judged:Cancel".into(), 40)],
         extra: vec![],
     }
